@@ -136,6 +136,9 @@ pub fn parse_pretty(out: &str) -> Result<(Vec<PrettyItem>, Option<usize>), Strin
                 return Err(format!("the bars of a source excerpt are not in one column: {:?} / {:?} / {:?}", lines[i], code, caret));
             }
             let text_col = b1.unwrap_or(0) + 2;
+            if let Some(bad) = caret.chars().skip(text_col).take_while(|c| *c != '^').find(|c| *c != ' ' && *c != '\t') {
+                return Err(format!("the marker line contains {bad:?} in front of the marker: {caret:?}"));
+            }
             let len = marks.chars().filter(|c| *c == '^').count();
             let off = match caret.chars().position(|c| c == '^') {
                 Some(c) if c >= text_col => c - text_col,
@@ -223,6 +226,16 @@ impl C18 {
         for k in c07::KINDS.iter().filter(|k| k.is_bad()) {
             let text = format!("{}\n{}\n{}\n    li a7, 10\n    ecall\n", c07::LineKind::Inst.text(0), k.text(1), c07::LineKind::LabelInst.text(2));
             fixed.push((format!("malformed:{}", k.name()), vec![("base.s".into(), text)]));
+        }
+        // the same with CRLF line endings (diagnostics at the end of a line stand at the CR)
+        for k in [c07::LineKind::BadMissingOperand, c07::LineKind::BadOperandKind, c07::LineKind::BadString] {
+            let text = format!("{}\r\n{}\r\n{}\r\n    li a7, 10\r\n    ecall\r\n", c07::LineKind::Inst.text(0), k.text(1), c07::LineKind::LabelInst.text(2));
+            fixed.push((format!("malformed-crlf:{}", k.name()), vec![("base.s".into(), text)]));
+        }
+        // a line that starts with white space the lexer does not know
+        for (n, ch) in [("no-break-space", '\u{a0}'), ("form-feed", '\u{c}'), ("ideographic-space", '\u{3000}')] {
+            let text = format!("main:\n{ch}   li a0, 1\n    add zero, a0, a1\n    li a7, 10\n    ecall\n");
+            fixed.push((format!("malformed:leading-{n}"), vec![("base.s".into(), text)]));
         }
         // analysis failures (C16's classes)
         for (n, t) in [
@@ -428,12 +441,33 @@ impl C18 {
                                 continue;
                             };
                             let src = loc.line_text(e.line - 1);
-                            let lead = src.chars().take_while(|c| c.is_whitespace()).count();
-                            let good_line = *n == e.line && *text_shown == src.trim();
+                            // indentation is blanks and tabs; any other character of the line, white
+                            // or not, may be what an item points at and has to be shown
+                            let lead = src.chars().take_while(|c| *c == ' ' || *c == '\t').count();
+                            let expected_text: String = src.chars().skip(lead).collect::<String>().trim_end_matches([' ', '\t', '\r', '\n']).to_string();
+                            let good_line = *n == e.line && text_shown.trim_end_matches([' ', '\t']) == expected_text;
                             // the marker starts under the start column (inside the left-aligned text)
                             let want_off = (e.start_col - 1).saturating_sub(lead);
                             let want_len = e.end_col + 1 - e.start_col;
                             // tabs inside the prefix are copied verbatim, so offsets count characters
+                            // the characters above the marker are the characters the item reports
+                            let shown: Vec<char> = text_shown.chars().collect();
+                            let source: Vec<char> = src.chars().collect();
+                            let mut under_the_right_text = true;
+                            for k in 0..*len {
+                                let reported = source.get(e.start_col - 1 + k).copied().filter(|c| *c != '\r' && *c != '\n');
+                                let above = shown.get(off + k).copied();
+                                if reported != above {
+                                    under_the_right_text = false;
+                                }
+                            }
+                            if good_line && *off == want_off && *len == want_len && !under_the_right_text {
+                                result = Some((
+                                    format!("C18|pretty-excerpt|marker-under-other-text|{kind}"),
+                                    witness("the marker stands under other characters than the item reports", json!({"item": format!("{e:?}"), "shown_text": text_shown, "marker_offset": off, "marker_length": len, "source_line": src, "flags": flags})),
+                                ));
+                                break 'configs;
+                            }
                             if !good_line || *off != want_off || *len != want_len {
                                 let what = if !good_line { "wrong-line" } else if *off != want_off { "marker-offset" } else { "marker-length" };
                                 result = Some((
